@@ -144,15 +144,14 @@ class Nullable:
         proving = self._proving_edges(l)
         for d in ds:
             others = {x[1] for x in ds if x is not d}
-            if d[1] != use_bi or True:
-                if d[1] == use_bi:
-                    # defined in the block of the use: reaches it directly (straight-line) unless it is the use's own destination
-                    reaches = True if d[0] == "stmt" else False
-                    reaches = reaches or self._reaches(d[1], use_bi, others, proving)
-                else:
-                    reaches = self._reaches(d[1], use_bi, others - {use_bi}, proving)
-                if not reaches:
-                    continue
+            if d[1] == use_bi:
+                # defined in the block of the use: a statement reaches the block's terminator directly; the destination of the
+                # block's own call reaches it only around a loop
+                reaches = d[0] == "stmt" or self._reaches(d[1], use_bi, others, proving)
+            else:
+                reaches = self._reaches(d[1], use_bi, others - {use_bi}, proving)
+            if not reaches:
+                continue
             if d[0] == "stmt":
                 rv = d[4]
                 span = self.b.blocks[d[1]]["stmts"][d[2]].get("span") or self.b.file_line()
